@@ -154,6 +154,17 @@ pub fn parse_eof(src: &'static str) -> Report {
     .with_source_code(src)
 }
 
+pub fn parse_too_long(span: Span, src: &'static str) -> Report {
+    miette!(
+        severity = Severity::Error,
+        code = "parse::too_long",
+        help = "a program can have at most 65535 words, including .blkw and .stringz data",
+        labels = vec![LabeledSpan::at(span, "does not fit in memory")],
+        "Program is too long for the 16-bit address space"
+    )
+    .with_source_code(src)
+}
+
 pub fn parse_lit_range(span: Span, src: &'static str, bits: Bits) -> Report {
     miette!(
         severity = Severity::Error,
